@@ -313,7 +313,9 @@ impl Dialect for HideExt {
     }
     fn op(&self, allocator: &mut Allocator, op: NodePtr, args: NodePtr, max_cost: Cost, ext: OperatorSet) -> Response {
         let b = allocator.atom(op).as_ref().to_vec();
-        if b == [0x13, 0xd6, 0x1f, 0x00] || b == [0x1c, 0x3a, 0x8f, 0x00] {
+        // an extension-unaware node knows no multi-byte operator at all: every 4-byte opcode follows the
+        // unknown-operator rule (not only the two that are assigned today)
+        if b.len() == 4 {
             if self.flags.contains(ClvmFlags::NO_UNKNOWN_OPS) {
                 return Err(EvalErr::Unimplemented(op));
             }
@@ -945,6 +947,22 @@ pub fn p_limits(thorough: bool) -> ProgSpace {
     let mut consts: Vec<Vec<u8>> = vec![vec![3], vec![0xfb], vec![0x00, 0x03]];
     for s in &sizes {
         consts.push(big_atom(*s));
+    }
+    // atoms whose length is just over a limit but whose magnitude is not: a 0x00 sign byte, redundant
+    // leading zeros, and the negative form ff 7f ..
+    for s in [257usize, 1025, 2049] {
+        let mut z = vec![0xffu8; s];
+        z[0] = 0x00;
+        consts.push(z);
+        let mut n = vec![0xffu8; s];
+        n[1] = 0x7f;
+        consts.push(n);
+        if thorough {
+            let mut zz = big_atom(s);
+            zz[0] = 0;
+            zz[1] = 0;
+            consts.push(zz);
+        }
     }
     let g1 = g1_gen();
     let g2 = g2_gen();
